@@ -87,19 +87,31 @@ func (m *DomainMatcher) Add(labels [][]byte) {
 // labelNode can store dns labels.
 type labelNode struct {
 	// lazy init
-	s map[[24]byte]*labelNode
+	s map[shortLabel]*labelNode
 	l map[string]*labelNode
+}
+
+// shortLabel is the map key of a label that is not longer than 24 bytes.
+// The length is part of the key. Otherwise labels that only differ in
+// trailing zero bytes (e.g. "example" and "example\x00") would share a key.
+type shortLabel struct {
+	b [24]byte
+	l uint8
+}
+
+func makeShortLabel(label []byte) (key shortLabel) {
+	copy(key.b[:], label)
+	key.l = uint8(len(label))
+	return key
 }
 
 func (n *labelNode) AddLeaf(label []byte) {
 	l := len(label)
 	if l <= 24 {
 		if n.s == nil {
-			n.s = make(map[[24]byte]*labelNode)
+			n.s = make(map[shortLabel]*labelNode)
 		}
-		var key [24]byte
-		copy(key[:], label)
-		n.s[key] = nil
+		n.s[makeShortLabel(label)] = nil
 	} else {
 		if n.l == nil {
 			n.l = make(map[string]*labelNode)
@@ -111,13 +123,12 @@ func (n *labelNode) AddLeaf(label []byte) {
 func (n *labelNode) GetOrAddChild(label []byte) *labelNode {
 	l := len(label)
 	if l <= 24 {
-		var key [24]byte
-		copy(key[:], label)
+		key := makeShortLabel(label)
 		if child := n.s[key]; child != nil {
 			return child
 		}
 		if n.s == nil {
-			n.s = make(map[[24]byte]*labelNode)
+			n.s = make(map[shortLabel]*labelNode)
 		}
 		child := new(labelNode)
 		n.s[key] = child
@@ -138,9 +149,7 @@ func (n *labelNode) GetOrAddChild(label []byte) *labelNode {
 func (n *labelNode) GetChild(label []byte) (child *labelNode, ok bool) {
 	l := len(label)
 	if l <= 24 {
-		var key [24]byte
-		copy(key[:], label)
-		child, ok = n.s[key]
+		child, ok = n.s[makeShortLabel(label)]
 		return
 	}
 	child, ok = n.l[string(label)]
